@@ -28,6 +28,14 @@ func init() {
 		Assume: []string{"FindColor: every palette member has the valid flag set (type invariant of a palette; ColorDefault inside a palette defeats the code's sentinel)"},
 	})
 	reg(&PropDef{
+		ID:     "C03",
+		Level:  "proof",
+		Funcs:  []string{"tcell.NewEventKey"},
+		Custom: []func(*PropRun){c03Tables},
+		Trusted: []string{"xterm ctlseqs 'PC-Style Function Keys' modifier encoding (parameter n = 1 + Shift(1)|Alt(2)|Ctrl(4)|Meta(8))",
+			"terminfo capability naming (kLFT = shifted left, ...) as encoded in keyCapSpec"},
+	})
+	reg(&PropDef{
 		ID:    "C08",
 		Level: "proof",
 		Funcs: []string{"tcell.(*CellBuffer).Size", "tcell.(*CellBuffer).GetContent", "tcell.(*CellBuffer).Dirty", "tcell.(*CellBuffer).SetDirty",
